@@ -53,31 +53,47 @@ def main():
             return 1
         # demo compile commands from its header comment
         text = open(demo).read()
-        head = text[:6000]
-        cmds = [l.strip(" *\t/") for l in head.split("\n") if re.search(r"\b(gcc|cc|g\+\+|clang)\b .*demo", l)]
-        cmds = [c.replace(orig_wt, wt).replace("seed_out/", "seed_out/") for c in cmds]
+        head = text[:8000]
+        # unfold the comment: strip leading ' * ', join backslash continuations
+        lines = [re.sub(r"^\s*(/\*+|\*+/?|//)\s?", "", l).rstrip() for l in head.split("\n")]
+        joined, cur = [], ""
+        for l in lines:
+            if cur:
+                cur += " " + l.strip()
+            else:
+                cur = l.strip()
+            if cur.endswith("\\"):
+                cur = cur[:-1].rstrip()
+                continue
+            joined.append(cur)
+            cur = ""
+        cmds = [c for c in joined if re.match(r"^(\$ )?(gcc|cc|g\+\+|clang)\b", c)]
+        cmds = [re.sub(r"^\$ ", "", c).replace(orig_wt, wt) for c in cmds]
         os.makedirs(os.path.join(wt, "seed_out"), exist_ok=True)
         shutil.copy(demo, os.path.join(wt, "seed_out", os.path.basename(demo)))
-        runs = [l.strip(" *\t/") for l in head.split("\n") if re.search(r"(LD_LIBRARY_PATH=\S+\s+)?\S*demo%s\b(?!\.c)" % k, l) and not re.search(r"\b(gcc|cc|g\+\+|clang)\b", l)]
-        runs = [c.replace(orig_wt, wt) for c in runs if "demo" in c]
 
         def build_and_run(tag):
-            for c in cmds[:2]:
-                r = sh(c, cwd=os.path.join(wt, "seed_out"))
-                if r.returncode != 0:
-                    note("%s: demo compile failed (%s): %s" % (tag, c[:120], r.stdout[-400:]))
+            for f in glob.glob(os.path.join(wt, "**", "demo%s" % k), recursive=True):
+                if os.path.isfile(f):
+                    os.unlink(f)
+            okc = False
+            for c in cmds[:1]:
+                for cwd in (wt, os.path.join(wt, "seed_out")):
+                    r = sh(c, cwd=cwd)
+                    if r.returncode == 0:
+                        okc = True
+                        break
+                if not okc:
+                    note("%s: demo compile failed (%s): %s" % (tag, c[:160], r.stdout[-400:]))
                     return None
-            exe = None
-            for cand in ("demo%s" % k, "./demo%s" % k):
-                if os.path.exists(os.path.join(wt, "seed_out", "demo%s" % k)):
-                    exe = os.path.join(wt, "seed_out", "demo%s" % k)
-            if exe is None:
-                c_out = glob.glob(os.path.join(wt, "seed_out", "*"))
-                note("%s: demo binary not found among %s" % (tag, [os.path.basename(x) for x in c_out]))
+            exes = [f for f in glob.glob(os.path.join(wt, "**", "demo%s*" % k), recursive=True)
+                    if os.path.isfile(f) and os.access(f, os.X_OK) and not f.endswith((".c", ".cc", ".cpp", ".json", ".diff"))]
+            if not exes:
+                note("%s: demo binary not found (commands: %s)" % (tag, cmds[:1]))
                 return None
             env = dict(os.environ)
             env["LD_LIBRARY_PATH"] = os.path.join(wt, "_build", "lib")
-            r = subprocess.run([exe], cwd=os.path.join(wt, "seed_out"), stdout=subprocess.PIPE, stderr=subprocess.STDOUT, text=True, env=env, timeout=300)
+            r = subprocess.run([exes[0]], cwd=wt, stdout=subprocess.PIPE, stderr=subprocess.STDOUT, text=True, env=env, timeout=300)
             note("%s: demo exit %d: %s" % (tag, r.returncode, r.stdout.strip().split("\n")[-1][:200]))
             return r.returncode
         rc0 = build_and_run("unchanged")
